@@ -597,7 +597,29 @@ class CastUnmarshaller(AbstractUnmarshaller[T]):
         return self.caster(decoded)
 
 
-PathUnmarshaller = CastUnmarshaller[pathlib.Path]
+PathT = tp.TypeVar("PathT", bound=pathlib.PurePath)
+
+
+class PathUnmarshaller(CastUnmarshaller[PathT], tp.Generic[PathT]):
+    """Unmarshaller that converts an input to a path.
+
+    Note:
+        The text of a path *is* the path: it is decoded, but never evaluated as JSON
+        or as a Python literal (`"1"`, `"null"` and `"[1]"` are valid file names).
+
+    See Also:
+        - [`typelib.serdes.decode`][]
+    """
+
+    __slots__ = ()
+
+    def __call__(self, val: tp.Any) -> PathT:
+        decoded = serdes.decode(val)
+        if isinstance(decoded, self.t):
+            return decoded
+        return self.caster(decoded)
+
+
 MappingUnmarshaller = CastUnmarshaller[tp.Mapping]
 IterableUnmarshaller = CastUnmarshaller[tp.Iterable]
 
